@@ -98,19 +98,22 @@ func (c *CRLRevocationChecker) Provision(crlConfig *config.CRLConfig, logger *za
 }
 
 func (c *CRLRevocationChecker) Cleanup() error {
-	if c.crlConfig != nil {
-		DeregisterCRLWorkDirUsage(c.crlConfig)
-	}
-	if c.crlRepository != nil {
-		c.crlRepository.Close()
-	}
-
 	if c.crlUpdateTicker != nil {
 		c.crlUpdateTicker.Stop()
 	}
 	if c.crlUpdateStop != nil {
 		//stop the update goroutine, a stopped ticker alone never wakes it up again
 		close(c.crlUpdateStop)
+	}
+	if c.crlRepository != nil {
+		//wait for a crl update which is still running, it works on the stores and on temporary files in the work dir.
+		//An update which starts later finds a closed repository and does nothing.
+		crlUpdateMutex.Lock()
+		c.crlRepository.Close()
+		crlUpdateMutex.Unlock()
+	}
+	if c.crlConfig != nil {
+		DeregisterCRLWorkDirUsage(c.crlConfig)
 	}
 	return nil
 }
